@@ -22,11 +22,11 @@ theorem lo8_and_one_le (x : U16) : (lo8 (x &&& 1)).toNat ≤ 1 := by
   exact Nat.le_trans (Nat.mod_le _ _) this
 
 /-- discharges `(e).toNat ≤ 1` for the byte expressions the interpreters assign to flags -/
+theorem shr7_le (x : U8) : (x >>> 7).toNat ≤ 1 := by revert x; decide
+
 macro "flag_tac" : tactic => `(tactic|
   first
-  | exact and_one_le _
-  | exact bit_le _
-  | exact lo8_and_one_le _
+  | (intros; first | exact and_one_le _ | exact bit_le _ | exact lo8_and_one_le _ | exact shr7_le _)
   | decide)
 
 end Cpu.GoPrim
